@@ -146,6 +146,11 @@ func vGenScenario(seed int64, mode string, maxN int, allowSlowQuota bool) *vScen
 		sc.Gomaxprocs = 4
 	}
 	n := vLogUniform(r, 20, maxN)
+	if n > 120 {
+		// hundreds of ssh servers and clients on one or two threads only
+		// measure how starved the process is
+		sc.Gomaxprocs = 4
+	}
 	// priorities: a few distinct values so that ties are the rule
 	prios := []int64{1, 1, 2, 3, 5, 5, 10, 100, 1000}
 	ntypes := 1 + r.Intn(4)
